@@ -25,9 +25,9 @@ ReadVerdict(o) ==
        IF o.obs.read # o.items THEN "full-read"
        ELSE IF \E k \in 1..Len(o.obs.queries) : ~W!IntervalOK(Triples(o.items, o.obs.queries[k].c), o.obs.queries[k].s, o.obs.queries[k].e, o.obs.queries[k].iv) THEN "interval"
        ELSE IF \E k \in 1..Len(o.obs.queries) : ~W!ValuesOK(Triples(o.items, o.obs.queries[k].c), o.obs.queries[k].s, o.obs.queries[k].e, o.obs.queries[k].vals) THEN "values"
-       ELSE IF o.zoom = 1 /\ (Len(o.obs.zooms) # 1 \/ o.obs.zint # 1) THEN "zoom-levels"
-       ELSE IF o.zoom = 1 /\ o.obs.zooms[1].recs # o.zrecs THEN "zoom-records"
-       ELSE IF o.zoom = 1 /\ \E k \in 1..Len(o.obs.zqueries) : ZQBad(o, o.obs.zqueries[k]) THEN "zoom-query"
+       ELSE IF o.zoom # 0 /\ (Len(o.obs.zooms) # 1 \/ o.obs.zint # 1) THEN "zoom-levels"
+       ELSE IF o.zoom # 0 /\ o.obs.zooms[1].recs # o.zrecs THEN "zoom-records"
+       ELSE IF o.zoom # 0 /\ \E k \in 1..Len(o.obs.zqueries) : ZQBad(o, o.obs.zqueries[k]) THEN "zoom-query"
        ELSE "ok"
   ELSE IF o.obs.readok # 1 \/ o.obs.read # B!WithIds(o.items) THEN "full-read"
        ELSE IF o.obs.count # Len(o.items) THEN "count"
